@@ -3,6 +3,7 @@ package main
 import (
 	"fmt"
 	"go/types"
+	"sort"
 	"strings"
 
 	"golang.org/x/tools/go/ssa"
@@ -198,7 +199,10 @@ func ruleHostPorts(c *Ctx, rule string) {
 					released = true
 				}
 			}
-			found := guardEdges(fn, predBool(func(v ssa.Value) bool { ex, ok := v.(*ssa.Extract); return ok && ex.Tuple == look.(ssa.Value) && ex.Index == 1 }))
+			found := guardEdges(fn, predBool(func(v ssa.Value) bool {
+				ex, ok := v.(*ssa.Extract)
+				return ok && ex.Tuple == look.(ssa.Value) && ex.Index == 1
+			}))
 			c.ob(rule, fn, "sockets are closed and the entry deleted in the critical section of its lookup", del, !released && guardedBy(fn, del, found),
 				"no Unlock is reachable between the lookup of the pod's sockets and the delete of the entry (an OpenHostports of a new sandbox cannot slip in), and the delete is on the found edge")
 			for _, cl := range closes {
@@ -350,4 +354,49 @@ func ruleHostPortOwnership(c *Ctx, rule string) {
 			}
 		}
 	}
+}
+
+// the ports of a container are recorded before any rule of them is written (the rollback and the gc find
+// the chains of a container only through the port file), and the three producers / the remover of
+// KUBE-HOSTPORTS rules derive the rule from the same, unmodified, port record
+func rulePortRecordFirst(c *Ctx, rule string) {
+	if fn := c.MustFn(rule, galaxyPkg, "(*Galaxy).setupPortMapping"); fn != nil {
+		sv := calls(fn, "pkg/api/k8s.SavePort")
+		su := calls(fn, "(*PortMappingHandler).SetupPortMapping")
+		if len(sv) != 1 || len(su) != 1 {
+			c.undecided(rule, fn, "SavePort / SetupPortMapping", nil, "expected one call of each")
+		} else {
+			ok, dec := onlyAfterSuccess(fn, sv[0], su[0])
+			c.ob(rule, fn, "port file saved before the iptables rules are written", su[0], ok && dec, "SetupPortMapping is reachable only through the success edge of SavePort: a partially applied setup is found again by cleanupPortMapping and by the gc")
+		}
+	}
+	// sibling agreement: which fields of the port record are rewritten before the rule spec is derived
+	sets := map[string]string{}
+	var fns []*ssa.Function
+	for _, name := range []string{"(*PortMappingHandler).SetupPortMapping", "(*PortMappingHandler).CleanPortMapping", "(*PortMappingHandler).SetupPortMappingForAllPods"} {
+		fn := c.MustFn(rule, pmPkg, name)
+		if fn == nil {
+			return
+		}
+		fns = append(fns, fn)
+		var fields []string
+		for _, f := range withAnon(fn) {
+			allInstrs(f, func(in ssa.Instruction) {
+				if st, ok := in.(*ssa.Store); ok {
+					if fa, ok := st.Addr.(*ssa.FieldAddr); ok && typeNameOf(fa.X.Type()) == "Port" {
+						fields = append(fields, fieldName(fa.X.Type(), fa.Field))
+					}
+				}
+			})
+		}
+		sort.Strings(fields)
+		sets[name] = strings.Join(fields, ",")
+	}
+	same := true
+	for _, v := range sets {
+		if v != sets["(*PortMappingHandler).CleanPortMapping"] {
+			same = false
+		}
+	}
+	c.ob(rule, fns[1], "setup, full sync and clean derive the KUBE-HOSTPORTS rule from the same port fields", nil, same, fmt.Sprintf("fields of k8s.Port rewritten before the rule spec is derived: %v — the remover re-derives the exact rule text, so a normalisation must be applied by all three or none", sets))
 }
